@@ -128,6 +128,11 @@ func (ex *Exec) dispatch(fr *Frame, st *State, site ssa.Instruction, fn *ssa.Fun
 		ex.callbackEffect(fr, st, site, args[idx])
 		return ex.freshResults(st, fn.Signature, "lib")
 	}
+	if (full == "container/heap.Push" || full == "container/heap.Pop") && len(args) > 0 {
+		if r, ok := ex.heapGeneric(fr, st, site, fn, full, args); ok {
+			return r
+		}
+	}
 	if r, ok := ex.modelCall(full, args, st, fn.Signature); ok {
 		return r
 	}
@@ -503,6 +508,69 @@ func (ex *Exec) modularCall(fr *Frame, st *State, site ssa.Instruction, fn *ssa.
 		ex.fact(st, f)
 	}
 	return rets
+}
+
+// heapGeneric models container/heap.Push / Pop on an implementation that is not a plain slice
+// (e.g. a struct holding the slice): Push calls h.Push(x) and then sifts (any number of Swap
+// calls: the frame of the implementation's Swap becomes arbitrary); Pop sifts and then calls h.Pop().
+// Which element ends up where is not modelled.
+func (ex *Exec) heapGeneric(fr *Frame, st *State, site ssa.Instruction, fn *ssa.Function, full string, args []Val) ([]Val, bool) {
+	h, ok := args[0].(*Agg)
+	if !ok {
+		return nil, false
+	}
+	id, lit := tm(h.F[0]).IsInt()
+	if !lit || id == 0 {
+		return nil, false
+	}
+	dt := ex.typeOf[int(id)]
+	if pt, isPtr := dt.Underlying().(*types.Pointer); isPtr {
+		if _, isSlice := pt.Elem().Underlying().(*types.Slice); isSlice {
+			return nil, false // the slice-backed model is more precise
+		}
+	}
+	it, _ := fn.Signature.Params().At(0).Type().Underlying().(*types.Interface)
+	if it == nil {
+		return nil, false
+	}
+	method := func(name string) *types.Func {
+		for i := 0; i < it.NumMethods(); i++ {
+			if it.Method(i).Name() == name {
+				return it.Method(i)
+			}
+		}
+		return nil
+	}
+	sift := func() {
+		sw := method("Swap")
+		sel := ex.prog.SSA.MethodSets.MethodSet(dt).Lookup(sw.Pkg(), "Swap")
+		var impl *ssa.Function
+		if sel != nil {
+			impl = ex.prog.SSA.MethodValue(sel)
+		}
+		var con *Contract
+		if impl != nil {
+			con = ex.contractFor(impl)
+		}
+		if con == nil || !con.HasMod {
+			ex.note("%s: %s: Swap of the heap implementation has no frame: heap havoced", fr.label, full)
+			ex.preservingPrivate(st, st.heap.havocAll)
+			return
+		}
+		var fs []*Term
+		cargs := []Val{h.F[1], freshVal(types.Typ[types.Int], "heap.i", &fs), freshVal(types.Typ[types.Int], "heap.j", &fs)}
+		pre := st.clone()
+		ex.applyModifies(st, pre, con.Modifies, func() *SpecEnv { return ex.calleeEnv(impl, con, cargs, pre, pre, nil) })
+	}
+	ex.assumed["model "+full+" (generic heap.Interface implementation): calls the implementation's Push/Pop and Swap; which element is at the top is not modelled"] = true
+	if full == "container/heap.Push" {
+		ex.invoke(fr, st, site, fn.Signature.Params().At(0).Type(), method("Push"), h, args[1:])
+		sift()
+		return nil, true
+	}
+	sift()
+	r := ex.invoke(fr, st, site, fn.Signature.Params().At(0).Type(), method("Pop"), h, nil)
+	return r, true
 }
 
 // callbackEffect accounts for any number of invocations (including none) of a function value by a
@@ -1300,6 +1368,10 @@ func (ex *Exec) recordCapture(fr *Frame, st *State, site ssa.Instruction, args, 
 				// the site ran before on another path (an inlined closure invoked from several
 				// places): the latest execution wins where it ran, the earlier one elsewhere
 				rec = &capRec{called: Or(old.called, st.reach), sig: sig}
+				if old.pre != nil && pre != nil {
+					// the two pre-states carry their own reach conditions: merge picks by them
+					rec.pre = ex.mergeStates([]*State{old.pre, pre})
+				}
 				for i := range args {
 					rec.args = append(rec.args, iteVal(st.reach, args[i], old.args[i]))
 				}
